@@ -7,6 +7,7 @@ package evalfilter
 // K chosen by the solver in [0, maxPolls].
 
 import (
+	"strings"
 	"context"
 
 	"github.com/skx/evalfilter/v2/object"
@@ -18,6 +19,7 @@ func init() {
 	zzsv.Register("ZZ_C09_Finishes", ZZ_C09_Finishes)
 	zzsv.Register("ZZ_C09_CancelByWork", ZZ_C09_CancelByWork)
 	zzsv.Register("ZZ_C09_AlreadyExpired", ZZ_C09_AlreadyExpired)
+	zzsv.Register("ZZ_C09_SingleInstructions", ZZ_C09_SingleInstructions)
 }
 
 var zzSpinners = []string{
@@ -187,4 +189,40 @@ func ZZ_C09_AlreadyExpired(sv *zzsv.T) {
 		sv.Assert("C09.expired.run_fails", err != nil)
 		sv.Assert("C09.expired.nothing_executed", calls == 0)
 	}
+}
+
+// ZZ_C09_SingleInstructions: "promptly" also inside a single operation: one
+// instruction whose operands are huge - a power with an astronomically large
+// exponent, a modulo, a comparison, an index far outside its container, a
+// string indexed far beyond its end - comes back (with a value or an error)
+// and the loop around it is stopped by the deadline like any other loop.
+func ZZ_C09_SingleInstructions(sv *zzsv.T) {
+	bases := []string{"1", "0", "(0 - 1)", "2", "1.0"}
+	b := bases[sv.Choice("base", len(bases))]
+	forms := []string{
+		"while (true) { x = B ** E; t(1); }",
+		"function f(n) { return B ** n; } while (true) { t(f(E)); }",
+		"while (true) { x = E % 7 + \"abc\"[E] + [1, 2][E]; t(1); }",
+	}
+	f := sv.Choice("form", len(forms))
+	src := strings.ReplaceAll(forms[f], "B", b)
+	sv.Note("script", src)
+	ex := sv.Int64("E")
+	sv.Assume(ex >= 1000000000)
+	ctx := sv.Ctx("cancel_at_poll", sv.Param("single.maxpolls", 30, 60))
+	calls := 0
+	e := New(src)
+	e.AddFunction("t", func(args []object.Object) object.Object {
+		calls++
+		return &object.Void{}
+	})
+	e.SetVariable("E", &object.Integer{Value: ex})
+	e.SetContext(ctx)
+	sv.Assume(e.Prepare() == nil)
+	sv.MustTerminate("C09.single.stops", 4)
+	_, err := e.Execute(nil)
+	sv.Observe("outcome", err != nil, ctx.Polls)
+	// (the script either fails on its own - "abc"[E] is null, null + ... is an
+	// error - or is stopped by the deadline: it always ends in an error)
+	sv.Assert("C09.single.ends_in_error", err != nil)
 }
